@@ -12,11 +12,11 @@ attribute [local irreducible] be unbe
 def State.importAll (s : State) (l : List Frame) : State := l.foldl (fun s f => s.step (.importF f)) s
 
 /-- a frame the import path can store -/
-def Importable (f : Frame) : Prop := f.id < idBound ∧ f.ctx < idBound ∧ NulFree f.topic
+def Importable (f : Frame) : Prop := f.id < idBound ∧ f.ctx < idBound ∧ NulFree f.topic ∧ f.decodable = true
 
 theorem step_import_ok {s : State} {f : Frame} (hf : Importable f) :
     s.step (.importF f) = s.insertFrameCore f := by
-  simp [State.step, State.insertFrame, hasNul_eq_false_iff.2 hf.2.2]
+  simp [State.step, State.insertFrame, hasNul_eq_false_iff.2 hf.2.2.1, hf.2.2.2]
 
 theorem importAll_inv {s : State} (h : Inv s) (l : List Frame) (hl : ∀ f ∈ l, Importable f) :
     Inv (s.importAll l) := by
@@ -26,7 +26,7 @@ theorem importAll_inv {s : State} (h : Inv s) (l : List Frame) (hl : ∀ f ∈ l
     have ha := hl a (by simp)
     simp only [State.importAll, List.foldl_cons]
     rw [step_import_ok ha]
-    exact ih (insertFrameCore_inv h ⟨ha.1, ha.2.1, ha.2.2⟩) (fun f hf => hl f (List.mem_cons_of_mem _ hf))
+    exact ih (insertFrameCore_inv h ⟨ha.1, ha.2.1, ha.2.2.1, ha.2.2.2⟩) (fun f hf => hl f (List.mem_cons_of_mem _ hf))
 
 /-- frames after importing a list with pairwise distinct ids: the list, plus whatever was
     stored under other ids -/
@@ -40,10 +40,10 @@ theorem mem_frames_importAll {s : State} (h : Inv s) (l : List Frame)
     obtain ⟨hda, hdl⟩ := List.pairwise_cons.1 hd
     simp only [State.importAll, List.foldl_cons]
     rw [step_import_ok ha]
-    have := ih (insertFrameCore_inv h ⟨ha.1, ha.2.1, ha.2.2⟩)
+    have := ih (insertFrameCore_inv h ⟨ha.1, ha.2.1, ha.2.2.1, ha.2.2.2⟩)
       (fun f hf => hl f (List.mem_cons_of_mem _ hf)) hdl
     simp only [State.importAll] at this
-    rw [this, mem_frames_insertFrameCore h.k ⟨ha.1, ha.2.1, ha.2.2⟩]
+    rw [this, mem_frames_insertFrameCore h.k ⟨ha.1, ha.2.1, ha.2.2.1, ha.2.2.2⟩]
     simp only [List.mem_cons]
     constructor
     · rintro (hg | ⟨hg | ⟨hg, hne⟩, hall⟩)
@@ -90,7 +90,7 @@ theorem export_import_roundtrip {s : State} (h : Inv s) {l : List Frame}
   have hl : ∀ f ∈ l, Importable f := by
     intro f hf
     have w := h.k.wfFrame (hp.mem_iff.1 hf)
-    exact ⟨w.id_lt, w.ctx_lt, w.nul⟩
+    exact ⟨w.id_lt, w.ctx_lt, w.nul, w.dec⟩
   have hdF : (frames s).Pairwise (fun a b => a.id ≠ b.id) :=
     (frames_sorted h.k).imp (fun hlt => Nat.ne_of_lt hlt)
   have hd : l.Pairwise (fun a b => a.id ≠ b.id) :=
@@ -110,7 +110,7 @@ theorem import_idempotent {s : State} (h : Inv s) {f : Frame} (hf : f ∈ frames
     frames (s.step (.importF f)) = frames s ∧
     ∀ c, c ∈ (s.step (.importF f)).contexts ↔ c ∈ s.contexts := by
   have w := h.k.wfFrame hf
-  have hi : Importable f := ⟨w.id_lt, w.ctx_lt, w.nul⟩
+  have hi : Importable f := ⟨w.id_lt, w.ctx_lt, w.nul, w.dec⟩
   rw [step_import_ok hi]
   have hI := insertFrameCore_inv h w
   have e : frames (s.insertFrameCore f) = frames s := by
